@@ -98,11 +98,11 @@ func (d desc) Method(n int) (string, drpc.Encoding, drpc.Receiver, interface{}, 
 		}, (*impl).Unary, true
 }
 
-type impl struct{}
+type impl struct{ fail error } // fail != nil: the method returns a response AND this error
 
-func (*impl) Unary(ctx context.Context, in *[]byte) (*[]byte, error) {
+func (s *impl) Unary(ctx context.Context, in *[]byte) (*[]byte, error) {
 	out := append([]byte("re:"), *in...)
-	return &out, nil
+	return &out, s.fail
 }
 
 func scenario(sp spec) *mc.Scenario {
@@ -115,17 +115,26 @@ func scenario(sp spec) *mc.Scenario {
 				return wl.Echo(stream, rpc)
 			}
 			switch sp.shape {
-			case "unknown", "undecodable":
+			case "unknown", "undecodable", "resp-and-err":
 				mux := drpcmux.New()
 				var e drpc.Encoding = enc.Bytes{}
 				if sp.shape == "undecodable" {
 					e = enc.FailUnmarshal{}
 				}
-				if err := mux.Register(&impl{}, desc{e}); err != nil {
+				srv := &impl{}
+				if sp.shape == "resp-and-err" {
+					// a unary method that returns a (partial) response together with its error
+					srv.fail = build(sp.text, sp.code, sp.wrap)
+				}
+				if err := mux.Register(srv, desc{e}); err != nil {
 					env.Failf("mux.Register: %v", err)
 				}
-				want = mux.HandleRPC(stream, rpc)
-				return want
+				ret := mux.HandleRPC(stream, rpc)
+				want = ret
+				if srv.fail != nil {
+					want = srv.fail // what the method returned, whatever the dispatcher made of it
+				}
+				return ret
 			case "ok":
 				return wl.Echo(stream, rpc)
 			}
@@ -176,7 +185,7 @@ func scenario(sp spec) *mc.Scenario {
 			case "unknown":
 				var out []byte
 				got = env.Conn.Invoke(ctx, "/svc/Nope", enc.Bytes{}, &req, &out)
-			case "undecodable":
+			case "undecodable", "resp-and-err":
 				var out []byte
 				got = env.Conn.Invoke(ctx, "/svc/Unary", enc.Bytes{}, &req, &out)
 			default:
@@ -321,6 +330,11 @@ func basePlans(tier string) []mc.Plan {
 	for n := 4040; n <= 4110; n++ {
 		for _, shape := range []string{"unary", "ok"} {
 			ps = append(ps, mc.Plan{Scen: scenario(spec{shape: shape, text: "quota exceeded", code: 1<<63 + 7, wrap: "none", req: n}), Bounds: []int{0}})
+		}
+	}
+	for _, c := range []uint64{0, 7, 1<<64 - 1} {
+		for _, w := range []string{"none", "unwrap3", "cause"} {
+			ps = append(ps, mc.Plan{Scen: scenario(spec{shape: "resp-and-err", text: "partial result", code: c, wrap: w}), Bounds: []int{0, 1}})
 		}
 	}
 	for _, shape := range []string{"unknown", "undecodable", "ok"} {
